@@ -151,6 +151,8 @@ def describe(case):
     classes = ["forms=" + "/".join(case["forms"])]
     if case.get("vdtype", "float64") != "float64":
         classes.append("integer_volumes")
+    elif min(case["V"]) < 1e-8:
+        classes.append("tiny_volumes(<1e-8)")
     if case.get("edtype", "float64") != "float64":
         classes.append("integer_energies")
     if (pattern & (np.abs(dE) >= CAP)).any():
@@ -285,6 +287,8 @@ def _hyp_shard(arg):
         S = draw(st.lists(logu(1e-3, 1e3), min_size=m, max_size=m))
         h = draw(st.lists(logu(1e-3, 1e3), min_size=m, max_size=m))
         V = draw(st.lists(logu(1e-3, 1e3), min_size=n, max_size=n))
+        vscale = draw(st.sampled_from([1.0, 1.0, 1.0, 1e-7, 1e-10, 1e-13, 1e5]))     # cells of any (positive) size
+        V = [v * vscale for v in V]
         emode = draw(st.sampled_from(["equal", "small", "large", "cap", "cap", "ramp"]))
         if emode == "equal":
             e0 = draw(st.floats(-1e3, 1e3))
@@ -356,7 +360,7 @@ def run(tier):
     results += pmap(_large_shard, [(s, 4 if tier == "quick" else 40) for s in range(shards)])
     res = merge_results(results)
     rule = ("Hypothesis: n in 2..14, symmetric patterns (random density / path / star / two components / empty), S,h,V "
-            "log-uniform in [1e-3,1e3], energies equal / sigma-small / large / with a forced adjacent pair at or beyond the "
+            "log-uniform in [1e-3,1e3] (V also scaled by 1e-13..1e5), energies equal / sigma-small / large / with a forced adjacent pair at or beyond the "
             "500 kJ/mol cap, T in [1,2000] K raised only as far as needed to keep the capped exponent < 600, D in [1e-6,1e3], "
             "storage csr / coo+coo / row-major coo / mixed, V and E as float64 or as integer-valued arrays of an integer "
             "dtype; plus large sparse models (ring + chords, n around powers of two up to 140000 and around sqrt(2^31), csr / coo, "
